@@ -45,6 +45,9 @@ pub struct Knobs {
     pub max_depth: usize,
     pub cond_depth: usize,
     pub docs: usize,
+    /// document generation mode: prefer values that satisfy the predicates, and split the keys of
+    /// object arrays over their elements
+    pub satisfy: bool,
 }
 
 impl Knobs {
@@ -101,6 +104,7 @@ impl Knobs {
             max_depth: rng.below(4),
             cond_depth: 1 + rng.below(3),
             docs: 12,
+            satisfy: false,
         }
     }
     pub fn has(&self, f: u32) -> bool {
@@ -114,9 +118,9 @@ const WORDS: [&str; 20] = [
     "foo", "bar", "baz", "fo", "o", "Foo", "BAR", "foobar", "x", "1", "12", "true", "null", "a.b",
     "f*o", "in", "is", "ob", "ar", "barbaz",
 ];
-const QUOTING_WORDS: [&str; 16] = [
+const QUOTING_WORDS: [&str; 18] = [
     "~", "*", "'", "\"", "yes", "1.0", "0x10", " lead", "trail ", "a: b", "a #b", "line1\nline2",
-    "-", "?", "[x]", "{y}",
+    "-", "?", "[x]", "{y}", "a\tb", "\tx",
 ];
 pub const REGEXES: [(&str, &[&str]); 16] = [
     ("fo+", &["foo", "xfoox", "f"]),
@@ -452,7 +456,8 @@ fn gen_identifier(rng: &mut Rng, k: &Knobs) -> Yaml {
 }
 
 fn gen_cast_operand(rng: &mut Rng, k: &Knobs, kind: usize) -> String {
-    let f = gen_field(rng, k, None);
+    // few distinct operands, so that one field is cast several times in one condition
+    let f = if rng.chance(2, 3) { (*rng.pick(&["a", "b"])).to_owned() } else { gen_field(rng, k, None) };
     match kind {
         0 => format!("int({})", f),
         1 => format!("flt({})", f),
@@ -577,6 +582,37 @@ fn gen_structured(rng: &mut Rng, k: &Knobs) -> Yaml {
             names.push(name);
         }
         cond = names.join(" or ");
+    } else if rng.chance(1, 3) {
+        // T4: one sequence identifier whose mappings share their fields (matrix material), one of
+        // the fields optionally a nested mapping
+        let n = 2 + rng.below(2);
+        let f1 = *rng.pick(&FIELDS);
+        let f2 = *rng.pick(&["d", "e", "b"]);
+        let nest = *rng.pick(&NEST_FIELDS);
+        let with_nest = rng.chance(1, 2);
+        let mut entries = vec![];
+        for _ in 0..n {
+            let mut m = Mapping::new();
+            let (k1, ic) = (rng.below(5), rng.chance(1, 6));
+            m.insert(ystr(f1), ystr(&family_pattern(rng, k1, ic)));
+            if f2 != f1 {
+                let v = if rng.chance(1, 3) { Yaml::Number(gen_int(rng, k).into()) } else { ystr(&family_pattern(rng, 3, false)) };
+                m.insert(ystr(f2), v);
+            }
+            if with_nest {
+                let mut inner = Mapping::new();
+                inner.insert(ystr(*rng.pick(&["x", "a"])), ystr(&family_pattern(rng, 3, false)));
+                m.insert(ystr(nest), Yaml::Mapping(inner));
+            }
+            entries.push(Yaml::Mapping(m));
+        }
+        det.insert(ystr("A"), Yaml::Sequence(entries));
+        cond = match rng.below(6) {
+            0 | 1 => "A".to_owned(),
+            2 | 3 => "not A".to_owned(),
+            4 => "all(A)".to_owned(),
+            _ => format!("of(A, {})", rng.below(n + 2)),
+        };
     } else if rng.chance(1, 2) {
         // T1: chains
         let n = 3 + rng.below(2);
@@ -665,7 +701,25 @@ pub fn gen_rule(rng: &mut Rng, k: &Knobs) -> Yaml {
     for name in &names {
         det.insert(ystr(name), gen_identifier(rng, k));
     }
-    let cond = gen_cond(rng, k, &names, k.cond_depth);
+    let mut cond = gen_cond(rng, k, &names, k.cond_depth);
+    if k.has(F_COND_CAST) && rng.chance(1, 8) {
+        // a chain of cast comparisons over very few fields (one field is cast several times)
+        let n = 2 + rng.below(2);
+        let kind = rng.below(3);
+        let mut parts = vec![];
+        for _ in 0..n {
+            let x = *rng.pick(&["a", "b", "c"]);
+            let y = *rng.pick(&["a", "b", "c"]);
+            parts.push(match kind {
+                0 => format!("str({}) == str({})", x, y),
+                1 => format!("int({}) {} int({})", x, rng.pick(&["==", ">", "<=", "<"]), y),
+                _ => format!("int({}) {} {}", x, rng.pick(&["==", ">", "<=", "<"]), rng.below(5)),
+            });
+        }
+        let op = if rng.chance(1, 2) { " or " } else { " and " };
+        let chain = parts.join(op);
+        cond = if rng.chance(1, 3) { format!("{} or {}", names[0], chain) } else { chain };
+    }
     det.insert(ystr("condition"), ystr(&cond));
     let mut rule = Mapping::new();
     rule.insert(ystr("detection"), Yaml::Mapping(det));
@@ -717,6 +771,8 @@ fn join_ws(s: &str) -> String {
 pub struct Schema {
     pub children: Vec<(String, Schema)>,
     pub values: Vec<MVal>,
+    /// one satisfying literal per predicate written on this field
+    pub cores: Vec<MVal>,
     pub indexed: bool,
 }
 
@@ -886,6 +942,11 @@ fn schema_value(v: &Yaml, target: &mut Schema) {
         v => {
             let mut vals = vec![];
             value_values(v, &mut vals);
+            if let Some(first) = vals.first() {
+                if target.cores.len() < 12 && !target.cores.contains(first) {
+                    target.cores.push(first.clone());
+                }
+            }
             for x in vals {
                 if target.values.len() < 48 && !target.values.contains(&x) {
                     target.values.push(x);
@@ -1036,6 +1097,9 @@ pub fn random_scalar(rng: &mut Rng, k: &Knobs) -> MVal {
 }
 
 fn gen_leaf(rng: &mut Rng, node: &Schema, k: &Knobs) -> MVal {
+    if k.satisfy && !node.cores.is_empty() && rng.chance(3, 4) {
+        return rng.pick(&node.cores).clone();
+    }
     if !node.values.is_empty() && rng.chance(7, 10) {
         rng.pick(&node.values).clone()
     } else {
@@ -1046,7 +1110,7 @@ fn gen_leaf(rng: &mut Rng, node: &Schema, k: &Knobs) -> MVal {
 fn gen_obj(rng: &mut Rng, node: &Schema, k: &Knobs, depth: usize) -> Vec<(String, MVal)> {
     let mut out = vec![];
     for (key, child) in &node.children {
-        if rng.chance(1, 5) {
+        if rng.chance(1, if k.satisfy { 12 } else { 5 }) {
             continue; // absent
         }
         let objlike = !child.children.is_empty();
@@ -1073,15 +1137,21 @@ fn gen_obj(rng: &mut Rng, node: &Schema, k: &Knobs, depth: usize) -> Vec<(String
             let r = rng.below(100);
             if r < 65 {
                 MVal::Obj(gen_obj(rng, child, k, depth + 1))
-            } else if r < 85 && k.has(F_DOC_OBJ_ARRAYS) {
-                let n = rng.below(4);
+            } else if r < 85 && (k.has(F_DOC_OBJ_ARRAYS) || child.children.len() >= 2) {
+                let n = if k.satisfy { 2 + rng.below(2) } else { rng.below(4) };
                 MVal::Arr(
                     (0..n)
-                        .map(|_| {
-                            if rng.chance(1, 8) {
+                        .map(|i| {
+                            if rng.chance(1, 8) && !k.satisfy {
                                 random_scalar(rng, k)
                             } else {
-                                MVal::Obj(gen_obj(rng, child, k, depth + 1))
+                                let mut o = gen_obj(rng, child, k, depth + 1);
+                                if k.satisfy && child.children.len() >= 2 {
+                                    // each element carries one of the addressed keys only
+                                    let keep = &child.children[i % child.children.len()].0;
+                                    o.retain(|(kk, _)| kk == keep || !child.children.iter().any(|(c, _)| c == kk));
+                                }
+                                MVal::Obj(o)
                             }
                         })
                         .collect(),
@@ -1278,7 +1348,9 @@ pub fn docs_for(rng: &mut Rng, rule: &Yaml, k: &Knobs, n: usize) -> Vec<MVal> {
         }
     }
     while docs.len() < n {
-        docs.push(gen_doc(rng, &schema, k));
+        let mut k2 = k.clone();
+        k2.satisfy = docs.len() % 3 == 1;
+        docs.push(gen_doc(rng, &schema, &k2));
     }
     docs
 }
@@ -1293,6 +1365,10 @@ pub struct KeySet {
     pub root_keys: std::collections::BTreeSet<String>,
     /// normalised (indices stripped) segment paths the engine may `get`
     pub paths: std::collections::BTreeSet<String>,
+    /// arrays addressed through `name[i]`: normalised path -> indices written in the rule
+    pub indexed: std::collections::BTreeMap<String, std::collections::BTreeSet<usize>>,
+    /// normalised paths that are (also) addressed without an index
+    pub unindexed: std::collections::BTreeSet<String>,
 }
 
 pub fn strip_indices(path: &str) -> String {
@@ -1318,13 +1394,25 @@ fn keyset_add_field(ks: &mut KeySet, prefix: &str, field: &str, root: bool) -> S
         ks.root_keys.insert(field.to_owned());
     }
     let mut cur = prefix.to_owned();
-    for seg in field.split('.') {
-        let seg = strip_indices(seg);
+    for raw in field.split('.') {
+        let seg = strip_indices(raw);
         if !cur.is_empty() {
             cur.push('.');
         }
         cur.push_str(&seg);
         ks.paths.insert(cur.clone());
+        let idx = raw
+            .split_once('[')
+            .and_then(|(_, r)| r.strip_suffix(']'))
+            .and_then(|i| i.parse::<usize>().ok());
+        match idx {
+            Some(i) => {
+                ks.indexed.entry(cur.clone()).or_default().insert(i);
+            }
+            None => {
+                ks.unindexed.insert(cur.clone());
+            }
+        }
     }
     cur
 }
